@@ -26,7 +26,7 @@ def leaf(variant: dict, kernel_name: str | None = None) -> str:
 	enum_v = variant.get('enum', 1)
 	extra = variant.get('extra', 0)
 	# SEED: un-annotated module variable; with a kernel module its type is whatever kernel_val() returns (the leaf's text stays the same)
-	head = ['from enum import Enum', 'from typing import Generic, TypeVar'] + ([f'from {kernel_name} import kernel_val'] if kernel_name else []) + ['', f'SEED = kernel_val()' if kernel_name else f'SEED = {lit}']
+	head = ['from enum import Enum', 'from typing import Generic, TypeVar'] + ([f'from {kernel_name} import kernel_val'] if kernel_name else []) + ['', f'SEED = kernel_val()' if kernel_name else f'SEED = {lit}', '# a module variable of a generic type: importers take the type of its elements from the row of their import symbol', 'ROWS: list[list[int]] = [[1, 2], [3]]']
 	lines = [
 		*head, '', '',
 		'class Tone(Enum):', f'\tLOW = {enum_v}', f'\tHIGH = {enum_v + 1}', '', '',
@@ -50,7 +50,7 @@ def leaf(variant: dict, kernel_name: str | None = None) -> str:
 
 def mid(name_of_leaf: str, variant: dict, tag: str = 'm') -> str:
 	wrap = variant.get('wrap', 'plain')
-	lines = ['from collections.abc import Callable', f'from {name_of_leaf} import Item, Tone, IntCrate, base_val, make_item, wide, SEED', '', '']
+	lines = ['from collections.abc import Callable', f'from {name_of_leaf} import Item, Tone, IntCrate, base_val, make_item, wide, SEED, ROWS', '', '']
 	# the first definition sits at the same tree position in every mid module: a type-parameterised function in one, a plain one in the others
 	if tag == 'a':
 		lines += [f'def {tag}_first[T](v: T) -> T:', '\treturn v', '', '']
@@ -58,6 +58,7 @@ def mid(name_of_leaf: str, variant: dict, tag: str = 'm') -> str:
 		lines += [f'def {tag}_first(v: int) -> int:', '\treturn v', '', '']
 	lines += [f'def {tag}_crate() -> int:', '\tcrate = IntCrate()', '\tcl = crate.load', '\treturn cl', '', '']
 	lines += [f'def {tag}_wide() -> int:', '\twv = wide(' + ', '.join(str(i) for i in range(11)) + ')', '\twvs = [wv]', '\treturn len(wvs)', '', '']
+	lines += [f'def {tag}_rows() -> int:', '\trow = ROWS[0]', '\tcell = row[0]', '\treturn len(row) + cell', '', '']
 	lines += [f'def {tag}_seed() -> int:', '\tseed = SEED', '\tseeds = [SEED, seed]', '\treturn len(seeds)', '', '']
 	# the only dict type of the project (a user template may request an include for it): root has none
 	lines += [f'def {tag}_table() -> int:', "\ttable: dict[str, int] = {'k': 1}", '\ttotal = 0', '\tfor tk, tv in table.items():', '\t\ttotal = total + tv + len(tk)', '\tnames = [tk2 for tk2 in table.keys()]', "\thas = 'k' in table", '\treturn len(table) + total + len(names)', '', '']
